@@ -180,20 +180,10 @@ Proof.
   apply in_track_field. left. exists []. split; reflexivity.
 Qed.
 
-(** the guard of a keyed collection field notifies the same triggers as a plain field (some twice) *)
+(** the guard of a keyed collection field notifies the same triggers as a plain field
+    (after refreshing the keys) *)
 Theorem keyed_write_wakes_same p r : wakes_k WKeyed p r = wakes p r.
-Proof.
-  unfold wakes, wakes_k. cbn [notified]. rewrite existsb_app. cbn [existsb].
-  rewrite orb_false_r.
-  destruct (existsb (fun t => trig_in t (track_field r)) (triggers_for_path p)) eqn:E; [reflexivity|].
-  cbn [orb]. apply not_true_is_false. intros H. apply orb_true_iff in H.
-  assert (Hc : existsb (fun t => trig_in t (track_field r)) (triggers_for_path p) = true).
-  { apply existsb_exists. destruct H as [H|H].
-    - exists (This p). split; [|exact H]. apply (in_notified_field (This p) p). right. reflexivity.
-    - exists (Children p). split; [|exact H]. apply (in_notified_field (Children p) p). left.
-      exists p. split; [reflexivity | apply is_prefix_refl]. }
-  congruence.
-Qed.
+Proof. reflexivity. Qed.
 
 (** siblings and cousins: two fields that part ways at some segment never wake each other *)
 Lemma diverged_not_prefix p x y t1 t2 :
